@@ -993,6 +993,7 @@ class Normalizer:
             body = attribute_aliases(body)
             body = self.copy_propagate(body, fi)
             body = adjacent_temps(body, body)
+            body = self.canon_calls(body, fi)
             body = canon_block(body)
             body = lift_ifexp(body)
             if not body:
@@ -1447,6 +1448,121 @@ class Normalizer:
         if isinstance(e, ast.JoinedStr):
             return e
         return e
+
+    # ---- one argument style for calls of kernpy functions
+    def _call_target(self, call: ast.Call, fi: FuncInfo):
+        """(FuncInfo, number of leading parameters supplied by the receiver) for a call that resolves statically to ONE kernpy
+        function or constructor; None otherwise (calls on arbitrary receivers are left as written)."""
+        prog = self.prog
+        f = call.func
+
+        def ctor(ci):
+            for c in prog.mro(ci):
+                if '__init__' in c.methods:
+                    return c.methods['__init__'], 1
+            return None
+
+        def of(t):
+            if t is None or t.module.generated or t.module.legacy or isinstance(t.node, ast.Lambda):
+                return None
+            if t.kind in ('method', 'classmethod'):
+                return t, 1
+            if t.kind in ('staticmethod', 'function'):
+                return t, 0
+            return None
+        if isinstance(f, ast.Name):
+            info = self.scope_info(fi)
+            if f.id in info['defs'] or f.id in info['locals']:
+                return None
+            b = prog.resolve(fi.module, f.id)
+            if b is None:
+                return None
+            if b.kind == 'def':
+                return b.value, 0
+            if b.kind == 'class':
+                return ctor(b.value)
+            return None
+        if isinstance(f, ast.Attribute):
+            v = f.value
+            if isinstance(v, ast.Name) and v.id in ('self', 'cls') and fi.cls is not None and fi.params[:1] == [v.id]:
+                return of(prog.find_method(fi.cls, f.attr))
+            if isinstance(v, ast.Call) and isinstance(v.func, ast.Name) and v.func.id == 'super' and fi.cls is not None and not v.args:
+                for c in prog.mro(fi.cls)[1:]:
+                    if f.attr in c.methods:
+                        return of(c.methods[f.attr])
+                return None
+            if isinstance(v, (ast.Name, ast.Attribute)):
+                if isinstance(v, ast.Name) and v.id in self.scope_info(fi)['locals']:
+                    return None
+                r = prog.resolve_expr(fi.module, v, None)
+                if r is None:
+                    return None
+                if r[0] == 'class':
+                    t = prog.find_method(r[1], f.attr)
+                    if t is not None and t.kind in ('classmethod', 'staticmethod'):
+                        return of(t)
+                    if t is None and f.attr in r[1].nested:
+                        return ctor(r[1].nested[f.attr])
+                    return None
+                if r[0] == 'module':
+                    tm = prog.modules.get(r[1])
+                    b = prog.resolve(tm, f.attr) if tm is not None else None
+                    if b is not None and b.kind == 'def':
+                        return b.value, 0
+                    if b is not None and b.kind == 'class':
+                        return ctor(b.value)
+        return None
+
+    def canon_calls(self, stmts: list, fi: FuncInfo) -> list:
+        """f(a, y=c, x=b) -> f(a, b, c): arguments of a resolved kernpy callee are written positionally in parameter order as far
+        as they are contiguous from the first parameter, the rest as keywords in parameter order."""
+        nz = self
+
+        class T(ast.NodeTransformer):
+            def visit_Call(self, c):
+                self.generic_visit(c)
+                if any(isinstance(a, ast.Starred) for a in c.args) or any(k.arg is None for k in c.keywords):
+                    return c
+                r = nz._call_target(c, fi)
+                if r is None:
+                    return c
+                t, drop = r
+                a = t.node.args
+                if a.vararg or a.kwarg:
+                    return c
+                pos = [x.arg for x in a.posonlyargs + a.args][drop:]
+                kwonly = [x.arg for x in a.kwonlyargs]
+                if len(c.args) > len(pos):
+                    return c
+                given = dict(zip(pos, c.args))
+                for k in c.keywords:
+                    if k.arg in given or k.arg not in pos + kwonly:
+                        return c
+                    given[k.arg] = k.value
+                args, kws = [], []
+                contiguous = True
+                for i, p in enumerate(pos):
+                    if p in given and contiguous and i >= len(a.posonlyargs) - drop - 0:
+                        args.append(given[p])
+                    elif p in given and contiguous:
+                        args.append(given[p])
+                    elif p in given:
+                        kws.append(ast.keyword(arg=p, value=given[p]))
+                    else:
+                        contiguous = False
+                for p in kwonly:
+                    if p in given:
+                        kws.append(ast.keyword(arg=p, value=given[p]))
+                c.args, c.keywords = args, kws
+                return c
+        out = []
+        for st in stmts:
+            if isinstance(st, (ast.FunctionDef, ast.AsyncFunctionDef, ast.ClassDef)):
+                out.append(st)
+            else:
+                out.append(T().visit(st))
+                ast.fix_missing_locations(out[-1])
+        return out
 
     # ---- copy propagation of attribute reads
     def _callees(self, call: ast.Call, fi: FuncInfo):
